@@ -91,3 +91,92 @@ fn c08_indexlist_model_agrees() {
     // front insert, append, split first, sweep
     run_seq([1, 0, 3, 2]);
 }
+
+// @harness c02_bytes_model_agrees
+// @props C02
+// @tier quick
+// @kind core
+// @timeout 1800
+// @mem 16
+// @functions bytes::BytesMut::{with_capacity, extend_from_slice, len, split_to, to_vec via Deref} and bytes::Buf::{get_u32, get_u32_le, get_u8} (the real crate) vs verif_support::bbuf::BytesMut (the model used by c02_block_entries*)
+// @bounds the operation sequence get_block_entries performs on one 2-entry block (three u32 reads, look for the NUL, split_to, get_u8, twice), on a 27-byte buffer with symbolic coordinate bytes and concrete rest bytes; results and remaining length compared after every operation; both byte orders
+// @assumes only the operations and the usage pattern bigtools has
+// @witness cover: a non-zero coordinate read
+#[kani::proof]
+#[kani::unwind(30)]
+fn c02_bytes_model_agrees() {
+    use bytes::Buf;
+    let w: [u32; 6] = [kani::any(), kani::any(), kani::any(), kani::any(), kani::any(), kani::any()];
+    let mut d: Vec<u8> = Vec::with_capacity(32);
+    d.extend_from_slice(&w[0].to_le_bytes()); d.extend_from_slice(&w[1].to_le_bytes()); d.extend_from_slice(&w[2].to_le_bytes());
+    d.push(b'x'); d.push(0);
+    d.extend_from_slice(&w[3].to_le_bytes()); d.extend_from_slice(&w[4].to_le_bytes()); d.extend_from_slice(&w[5].to_le_bytes());
+    d.push(0);
+    let mut real = bytes::BytesMut::with_capacity(d.len());
+    real.extend_from_slice(&d);
+    let mut m = crate::verif_support::bbuf::BytesMut::with_capacity(d.len());
+    m.extend_from_slice(&d);
+    assert!(real.len() == m.len() && m.len() == 27, "[model_len] initial length");
+    // entry 1, little-endian reads
+    let (a, b) = (real.get_u32_le(), m.get_u32_le());
+    assert!(a == b && a == w[0], "[model_u32le] get_u32_le differs");
+    let (a, b) = (real.get_u32_le(), m.get_u32_le());
+    assert!(a == b && a == w[1], "[model_u32le] get_u32_le differs");
+    let (a, b) = (real.get_u32_le(), m.get_u32_le());
+    assert!(a == b && a == w[2], "[model_u32le] get_u32_le differs");
+    assert!(real.len() == m.len() && m.len() == 15, "[model_len] length after three reads");
+    assert!(real[0] == m[0] && real[1] == m[1] && m[0] == b'x' && m[1] == 0, "[model_deref] unread bytes differ");
+    let (rs, ms) = (real.split_to(1), m.split_to(1));
+    let (rv, mv) = (rs.to_vec(), ms.to_vec());
+    assert!(rv.len() == 1 && mv.len() == 1 && rv[0] == b'x' && mv[0] == b'x', "[model_split] split_to front differs");
+    let (a, b) = (real.get_u8(), m.get_u8());
+    assert!(a == b && a == 0, "[model_u8] get_u8 differs");
+    assert!(real.len() == m.len() && m.len() == 13, "[model_len] length after the first entry");
+    // entry 2, big-endian reads
+    let (a, b) = (real.get_u32(), m.get_u32());
+    assert!(a == b && a == w[3].swap_bytes(), "[model_u32be] get_u32 differs");
+    let (a, b) = (real.get_u32(), m.get_u32());
+    assert!(a == b && a == w[4].swap_bytes(), "[model_u32be] get_u32 differs");
+    let (a, b) = (real.get_u32(), m.get_u32());
+    assert!(a == b && a == w[5].swap_bytes(), "[model_u32be] get_u32 differs");
+    let (rs, ms) = (real.split_to(0), m.split_to(0));
+    assert!(rs.len() == 0 && ms.len() == 0, "[model_split] empty split differs");
+    let (a, b) = (real.get_u8(), m.get_u8());
+    assert!(a == b && a == 0, "[model_u8] get_u8 differs");
+    assert!(real.len() == 0 && m.len() == 0, "[model_len] both exhausted");
+    let c1 = w[1] != 0;
+    kani::cover!(c1, "non-zero coordinate read");
+    core::mem::forget(real);
+    core::mem::forget(rs);
+    core::mem::forget(rv);
+}
+
+// @harness probe_bbuf_constprop
+// @props X
+// @tier off
+// @kind stretch
+// @timeout 600
+// @mem 8
+// @functions probe only
+// @bounds probe
+#[kani::proof]
+#[kani::unwind(30)]
+fn probe_bbuf_constprop() {
+    let w: [u32; 3] = [kani::any(), kani::any(), kani::any()];
+    let mut d: Vec<u8> = Vec::with_capacity(32);
+    let mut k = 0;
+    while k < 3 {
+        let b = w[k].to_le_bytes();
+        d.push(b[0]); d.push(b[1]); d.push(b[2]); d.push(b[3]);
+        k += 1;
+    }
+    d.push(b'x'); d.push(0); d.push(7);
+    let mut m = crate::verif_support::bbuf::BytesMut::with_capacity(d.len());
+    m.extend_from_slice(&d);
+    let a = m.get_u32_le();
+    let b = m.get_u32_le();
+    let c = m.get_u32_le();
+    let nul = m.iter().position(|b| *b == 0);
+    assert!(nul == Some(1));
+    assert!(a == w[0] && b == w[1] && c == w[2]);
+}
